@@ -5,12 +5,12 @@ from __future__ import annotations
 import random
 from fractions import Fraction
 
-from pint.errors import DimensionalityError
+from pint.errors import DimensionalityError, OffsetUnitCalculusError
 
 from .. import covers, regs
 from ..ref import refdefs
 from ..runner import Case
-from ..sx.q import And, Eq
+from ..sx.q import And, Eq, Not, Or
 
 PROPERTY = "C02"
 M = "pvlib.harness.c02"
@@ -133,6 +133,56 @@ def h_pair(eng, u, v, w):
     eng.prove(Eq(q.magnitude, x), "source-untouched")
 
 
+def h_compound_twice(eng, u, u2, v, v2, bound):
+    """two conversions of compound units in the same registry, with symbolic integer exponents:
+    u^e v^f -> u2^e v2^f, then the same units with other exponents.  The factor of the second is
+    its own, whatever was asked (and memoised) first.  hash_mode=const: every container over the
+    same unit names hashes alike, so memo tables are exercised through __eq__ alone."""
+    ureg = regs.default(eng)
+    inf = covers.infos()
+    x = eng.real("x")
+    fu, fv = inf[u].num / inf[u2].num, inf[v].num / inf[v2].num
+    for rnd_ in (0, 1):
+        e = eng.integer(f"e{rnd_}", -bound, bound)
+        f = eng.integer(f"f{rnd_}", -bound, bound)
+        eng.assume(Not(Eq(e, 0)))
+        eng.assume(Not(Eq(f, 0)))
+        src = ureg.UnitsContainer({u: e, v: f})
+        dst = ureg.UnitsContainer({u2: e, v2: f})
+        r = ureg.convert(x, src, dst)
+        rng = [k for k in range(-bound, bound + 1) if k]
+        eng.prove(Or(*[And(Eq(e, k), Eq(f, l), Eq(r, x * fu**k * fv**l)) for k in rng for l in rng]), f"compound-factor-round{rnd_}")
+        back = ureg.convert(r, dst, src)
+        eng.prove(Eq(back, x), f"compound-round-trip-round{rnd_}")
+
+
+def h_spellings_after_lookups(eng, first, then):
+    """every defined spelling keeps its meaning after prefixed units were looked up (and
+    registered on the fly) under names whose composed name or symbol is itself a defined spelling"""
+    ureg = regs.default(eng)
+    inf = covers.infos()
+    d = refdefs.default()
+    for text in first:
+        try:
+            ureg.Quantity(1, text).to_root_units()
+            ureg.get_symbol(text)
+            format(ureg.Unit(text), "~")
+        except Exception:  # noqa: BLE001 - what these lookups answer is H02.b's and C08's subject
+            pass
+    for i, sp in enumerate(then):
+        x = eng.real(f"x{i}")
+        info = inf[d.spellings[sp]]
+        try:
+            r = ureg.Quantity(x, sp).to_root_units()
+        except (OffsetUnitCalculusError, DimensionalityError):
+            continue
+        got_units = {k: Fraction(v if not hasattr(v, "c") else v.c) for k, v in r._units.items()}
+        eng.prove(got_units == dict(info.roots), f"spelling-root-units-after-lookups:{sp}")
+        if info.kind in ("base", "mult", "dimensionless") and not info.inexact:
+            eng.prove(Eq(r.magnitude, x * info.num), f"spelling-factor-after-lookups:{sp}")
+        eng.prove(ureg.get_name(sp) == info.name, f"spelling-name-after-lookups:{sp}")
+
+
 TEMPLATES = [
     # (name, list of (unit, exponents over earlier units), queries)
     ("chain3", [("u1", {"b1": 1}), ("u2", {"u1": 1}), ("u3", {"u2": 1})]),
@@ -192,7 +242,7 @@ def h_generated(eng, tname):
         eng.prove(Eq(r.magnitude, x * fac[last] / fac[first]), "gen-pair")
 
 
-MIN_DISCHARGED = {"H02.a": 1500, "H02.b": 300, "H02.c": 500, "H02.d": 40}
+MIN_DISCHARGED = {"H02.a": 1500, "H02.b": 300, "H02.c": 500, "H02.c-compound": 50, "H02.d": 40, "H02.e": 60}
 
 
 def cases(tier, seed):
@@ -243,6 +293,35 @@ def cases(tier, seed):
         members = cl[inf[u].dims]
         w = rnd.choice(members)
         out.append(Case("H02.c", f"{u}~{v}~{w}", M, "h_pair", {"u": u, "v": v, "w": w}, validate=1))
+    # H02.c compound units with symbolic exponents, twice in one registry
+    cp = [("mile", "meter", "hour", "second"), ("yard", "meter", "minute", "second"), ("inch", "foot", "pound", "gram")]
+    for _ in range(12 if big else 3):
+        (a, a2), (b, b2) = covers.same_dim_pairs(rnd.randrange(10**6), 2, positive_only=True)[:2]
+        if len({a, a2, b, b2}) == 4 and not any(inf[n].inexact for n in (a, a2, b, b2)):
+            cp.append((a, a2, b, b2))
+    for a, a2, b, b2 in cp:
+        out.append(Case("H02.c-compound", f"{a}->{a2},{b}->{b2}", M, "h_compound_twice", {"u": a, "u2": a2, "v": b, "v2": b2, "bound": 3 if big else 2}, opts={"hash_mode": "const", "max_paths": 20000}, weight=30.0, validate=4))
+    # H02.e defined spellings after adversarial prefixed lookups: prefix x unit whose composed long
+    # name or composed symbol is a defined spelling of (another) unit
+    adversarial = []
+    pre = {}
+    for sp_, (pname, _pv, _ps) in d.prefixes.items():
+        pre.setdefault(pname, []).append(sp_)
+    for pname, pspell in pre.items():
+        psym = d.prefix_defs[pname][1] or pname
+        for c in mult:
+            usym = d.units[c].symbol or c
+            if (psym + usym) in d.spellings and d.spellings[psym + usym] != c:
+                adversarial.append((pname + c, psym + usym))
+    adversarial.sort()
+    if not big:
+        adversarial = rnd.sample(adversarial, min(len(adversarial), 60))
+    for i in range(0, len(adversarial), 10):
+        chunk = adversarial[i : i + 10]
+        first = [a for a, _ in chunk] + [a + "s" for a, _ in chunk[:3]]
+        then = [b for _, b in chunk] + rnd.sample(names[: len(names) - 1], 6)
+        then = [t for t in then if t in d.spellings and inf.get(d.spellings[t]) is not None]
+        out.append(Case("H02.e", f"{i:04d}:{chunk[0][0]}", M, "h_spellings_after_lookups", {"first": first, "then": then}, validate=1))
     # H02.d generated registries with symbolic scales
     for t in TEMPLATES:
         out.append(Case("H02.d", t[0], M, "h_generated", {"tname": t[0]}, weight=5.0))
